@@ -188,8 +188,12 @@ def defset(draw, max_items=8, keywords=False, array_typedefs=True):
         elif k == "typedef":
             name = draw(st.sampled_from(["T{c}", "T{c}", "typedef_{c}", "struct_{c}", "union{c}", "enum{c}_t"])).format(c=counter)
             srcs = [("scalar", s) for s in SCALARS[:12]] + [("alias", a) for a in env["aliases"]] + [("struct", s) for s in env["structs"]] + [("enum", e) for e in env["enums"]]
+            # by tag: 'typedef struct S1 T;' / 'typedef struct _TS3 *P;' (the tag of an earlier 'typedef struct _TS3 {...} TS3;')
+            srcs += [("tagged", s) for s in env["structs"]] * 2 + [("tagged", t_) for t_ in env.get("tags", {})] * 3
             kind_, src = draw(st.sampled_from(srcs))
             deps = set() if kind_ == "scalar" else {src}
+            if kind_ == "tagged":
+                src = f"{env['structs'].get(src) or env['tags'][src]} {src}"
             form = draw(st.integers(0, 7)) if array_typedefs else 2
             decl = name
             if form == 0:
@@ -209,6 +213,8 @@ def defset(draw, max_items=8, keywords=False, array_typedefs=True):
             allnames = names + ([tag.strip()] if tag else [])
             for nm_ in names:
                 env["aliases"][nm_] = True
+            if tag:
+                env.setdefault("tags", {})[tag.strip()] = k2
             items.append(Item("typedef_struct", name, text, deps, names=allnames))
     return items
 
